@@ -483,7 +483,9 @@ class HttpParser:
             self._content_expected = True
         # return b'transfer-encoding' in self.headers and \
         #   self.headers[b'transfer-encoding'][1].lower() == b'chunked'
-        elif k == b'transfer-encoding' and value.lower() == b'chunked':
+        # chunked can be the last of several transfer codings e.g. "gzip, chunked"
+        elif k == b'transfer-encoding' and \
+                value.lower().split(COMMA)[-1].strip() == b'chunked':
             self._is_chunked_encoded = True
 
     def _get_body_or_chunks(self) -> Optional[bytes]:
